@@ -137,6 +137,11 @@ func makeC08Input(seed int64, stream string, idx int) c08Input {
 			pieces := []string{":", "/", "\\", ".", "..", "%", "%3A", "%2F", "%5C", "%2e", "%", "+", " ", "c", "C", "a", "~", "$", "*", "?", "#", "é", "\x00", ".fga", ".FGA", "fga", "-", "|", ">", "&", "!", "'", "\""}
 			var sb strings.Builder
 			sb.WriteString([]string{"schema: '1.2'\n", "schema: \"1.2\"\n", "schema: 1.2\n", ""}[r.Intn(4)])
+			if r.Intn(15) == 0 {
+				sb.WriteString("contents: &c [*c]\n")
+				in.Text = sb.String()
+				break
+			}
 			sb.WriteString("contents:\n")
 			for k := 1 + r.Intn(4); k > 0; k-- {
 				e := ""
@@ -150,6 +155,10 @@ func makeC08Input(seed int64, stream string, idx int) c08Input {
 					sb.WriteString("  - '" + strings.ReplaceAll(strings.ReplaceAll(e, "'", "''"), "\x00", "") + "'\n")
 				default:
 					sb.WriteString("  - " + e + "\n") // plain: whatever YAML makes of it
+				}
+				if r.Intn(12) == 0 {
+					// an anchored collection that contains an alias of itself: a cyclic node graph
+					sb.WriteString([]string{"  - &s [x.fga, *s]\n", "  - &m {k: *m}\n", "  - &q\n    - *q\n"}[r.Intn(3)])
 				}
 			}
 			in.Text = sb.String()
